@@ -208,6 +208,8 @@ pub struct Outcome {
     pub shape: u64,
     pub sim_ticks: u64,
     pub executed: u64,
+    /// the thread's std RandomState keys when the run started (None if the OS-randomness seam is off)
+    pub hash_keys: Option<(u64, u64)>,
 }
 
 impl Outcome {
@@ -224,6 +226,7 @@ impl Outcome {
             shape: ctx.shape,
             sim_ticks: ctx.sim_ticks,
             executed: ctx.executed,
+            hash_keys: None,
         }
     }
 }
